@@ -51,6 +51,8 @@ class State:
         self.epoch = {}       # key prefix -> n  (havoced prefixes)
         self.trace = []
         self.variants = []    # (inspected value term, variant names, is / is-none-of)
+        self.infeasible = False   # the path takes a switch arm that contradicts a value known on the path
+        self.nonempty = set()     # cell keys of collections that received an insert/push on this path
 
     def fresh(self):
         self.havoc_n += 1
@@ -122,10 +124,26 @@ class SymPath:
             for a in args:
                 self.havoc_through(st, a)
             name = callee_res(t)
-            self.store(st, t['dest'], ('call', name, args, bb), bb, 'term')
+            res = ('call', name, args, bb)
+            last = name.rsplit('::', 1)[-1]
+            a0 = args[0] if args else None
+            # a few pure queries whose answer is known from what the path did
+            if last in ('is_some', 'is_none') and 'Option' in name and a0 is not None:
+                v = a0[3] if a0[0] == 'ref' and len(a0) > 3 else a0
+                if v[0] == 'agg' and v[2] in ('Some', 'None'):
+                    res = ('c', 1 if (v[2] == 'Some') == (last == 'is_some') else 0)
+            if last in ('insert', 'push', 'push_back', 'push_front') and a0 is not None and a0[0] == 'ref' and a0[2]:
+                st.nonempty.add(a0[1])
+            if last == 'is_empty' and a0 is not None and a0[0] == 'ref' and a0[1] in st.nonempty:
+                res = ('c', 0)
+            self.store(st, t['dest'], res, bb, 'term')
         elif k == 'switch':
             x = self.operand(st, t['x'])
             taken = [a[0] for a in t['arms'] if a[1] == nxt]
+            if x[0] == 'c':
+                arm_vals = [a[0] for a in t['arms']]
+                if (taken and x[1] not in taken) or (not taken and x[1] in arm_vals):
+                    st.infeasible = True
             if x[0] == 'bin' and x[1] in CMP:
                 if nxt == t['otherwise'] and not taken:
                     # bool: otherwise = true when the only arm is 0
@@ -136,6 +154,14 @@ class SymPath:
                 if truth is not None:
                     st.guards.append((x[1], x[2], x[3], truth))
             st.trace.append(('switch', bb, x, taken or 'otherwise'))
+            if x[0] == 'discr' and self.fx is not None and x[1][0] == 'agg' and x[1][2]:
+                # the discriminant of a value built on this path is known
+                known = x[1][2]
+                if taken:
+                    if known not in [self.fx.variant_name(x[2], v) for v in taken]:
+                        st.infeasible = True
+                elif known in [self.fx.variant_name(x[2], a[0]) for a in t['arms']]:
+                    st.infeasible = True
             if x[0] == 'discr' and self.fx is not None:
                 # which variant(s) the path assumes for the inspected value
                 allv = [a[0] for a in t['arms']]
